@@ -1328,3 +1328,142 @@ Proof.
     unfold row_eqb in Hq. repeat (apply andb_true_iff in Hq; destruct Hq as [Hq ?]).
     repeat match goal with H : (_ =? _) = true |- _ => apply Z.eqb_eq in H end. congruence.
 Qed.
+
+(* ------------------------------------------------------------------------------------------------ *)
+(* at-least-once 3: a due row is claimed within at most (number of due rows) consecutive polls         *)
+(* ------------------------------------------------------------------------------------------------ *)
+Lemma eligible_now : forall c s1 s2 x, now s1 = now s2 -> eligible c s1 x = eligible c s2 x.
+Proof. intros c s1 s2 x E. unfold eligible, sql_now. rewrite E. reflexivity. Qed.
+
+Lemma take_filter_len {A} (key : A -> Z) (f : A -> bool) : forall id l r rest,
+  take key id l = Some (r, rest) -> (length (filter f rest) <= length (filter f l))%nat.
+Proof.
+  induction l as [|a l IH]; simpl; intros r rest H; [discriminate|].
+  destruct (key a =? id).
+  - inversion H; subst. destruct (f r); simpl; lia.
+  - destruct (take key id l) as [[x t']|] eqn:T; [|discriminate]. inversion H; subst.
+    specialize (IH _ _ eq_refl). simpl. destruct (f a); simpl; lia.
+Qed.
+
+Lemma filter_claim_len : forall (E : row -> bool) id ver lockv l,
+  (forall x, In x l -> claim_hit id ver x = true -> E x = true /\ E (claimed lockv x) = false) ->
+  (length (filter E (claim_rows id ver lockv l)) + length (filter (claim_hit id ver) l) = length (filter E l))%nat.
+Proof.
+  intros E id ver lockv. induction l as [|a l IH]; simpl; intros H; auto.
+  assert (IH' := IH (fun x Hx => H x (or_intror Hx))).
+  destruct (claim_hit id ver a) eqn:Hh.
+  - destruct (H a (or_introl eq_refl) Hh) as [E1 E2]. rewrite E1, E2. simpl. lia.
+  - destruct (E a); simpl; lia.
+Qed.
+
+Section Drain.
+Variables (c : cfg) (p : nat).
+Hypothesis lock_covers_skew : eff_skew c <= lock_ms c.
+
+Lemma claimed_not_eligible : forall s r, eligible c s (claimed (now s + lock_ms c) r) = false.
+Proof.
+  intros s r. unfold eligible. simpl.
+  assert (E : poll_lock_cmp (sec (now s + lock_ms c)) (sec (sql_now c s)) = false).
+  { unfold poll_lock_cmp. apply Z.ltb_ge. unfold sec, sql_now. fold (eff_skew c). apply Z.div_le_mono; lia. }
+  rewrite E. rewrite andb_false_r. reflexivity.
+Qed.
+
+(* one sequential poll when the SELECT finds r': what the state looks like afterwards *)
+Lemma poll_effect : forall s r', inv s -> pick c s = Some r' ->
+  let s' := fst (do_poll c p s) in
+  now s' = now s /\ claims s' = (r_id r', r_ver r') :: claims s /\
+  (forall x, In x (rows s) -> r_id x <> r_id r' -> In x (rows s')) /\
+  (length (filter (eligible c s) (rows s')) < length (filter (eligible c s) (rows s)))%nat.
+Proof.
+  intros s r' Hinv P. pose proof (pick_in _ _ _ P) as Hin. pose proof (pick_eligible _ _ _ P) as He.
+  destruct Hinv as ((N & _) & _).
+  set (lockv := now s + lock_ms c).
+  set (s1 := put_pc p (Selected (r_id r') (r_ver r') (r_att r') (r_kind r') lockv) s).
+  assert (Hhit : claim_hit (r_id r') (r_ver r') r' = true) by (apply claim_hit_spec; auto).
+  assert (Hf : exists r0, find (claim_hit (r_id r') (r_ver r')) (rows s) = Some r0 /\ r0 = r').
+  { destruct (find (claim_hit (r_id r') (r_ver r')) (rows s)) as [r0|] eqn:F.
+    - exists r0. split; auto. destruct (find_some _ _ F) as [Hi Hh]. apply claim_hit_spec in Hh.
+      eapply nodup_keys_inj; eauto. tauto.
+    - exfalso. pose proof (find_none _ _ F r' Hin). congruence. }
+  destruct Hf as (r0 & F & ->).
+  assert (Huniq : forall x, In x (rows s) -> claim_hit (r_id r') (r_ver r') x = true -> x = r').
+  { intros x Hx Hh. apply claim_hit_spec in Hh. eapply nodup_keys_inj; eauto. tauto. }
+  assert (Hlen : (length (filter (eligible c s) (claim_rows (r_id r') (r_ver r') lockv (rows s)))
+                  < length (filter (eligible c s) (rows s)))%nat).
+  { pose proof (filter_claim_len (eligible c s) (r_id r') (r_ver r') lockv (rows s)) as L.
+    assert (Hpre : forall x, In x (rows s) -> claim_hit (r_id r') (r_ver r') x = true ->
+                   eligible c s x = true /\ eligible c s (claimed lockv x) = false).
+    { intros x Hx Hh. rewrite (Huniq x Hx Hh). split; auto. apply claimed_not_eligible. }
+    specialize (L Hpre).
+    assert (1 <= length (filter (claim_hit (r_id r') (r_ver r')) (rows s)))%nat.
+    { assert (In r' (filter (claim_hit (r_id r') (r_ver r')) (rows s))) by (apply filter_In; auto).
+      destruct (filter (claim_hit (r_id r') (r_ver r')) (rows s)); [contradiction|simpl; lia]. }
+    lia. }
+  assert (Hother : forall x, In x (rows s) -> r_id x <> r_id r' -> In x (claim_rows (r_id r') (r_ver r') lockv (rows s))).
+  { intros x Hx Hne. unfold claim_rows. apply in_map_iff. exists x. split; auto.
+    destruct (claim_hit (r_id r') (r_ver r') x) eqn:Hh; auto. apply claim_hit_spec in Hh. tauto. }
+  assert (E1 : do_select c p s = (s1, RSel (Some (r_id r')))) by (unfold do_select; rewrite P; reflexivity).
+  assert (G : get_pc p s1 = Selected (r_id r') (r_ver r') (r_att r') (r_kind r') lockv) by apply get_put_same.
+  assert (F1 : find (claim_hit (r_id r') (r_ver r')) (rows s1) = Some r') by exact F.
+  set (s2 := claim_state s1 (r_id r') (r_ver r') lockv (r_ver r')).
+  assert (E2 : do_claim c p s1 =
+               match r_kind r' with
+               | Good => (put_pc p Idle s2, RMsg (r_id r') (r_att r' + 1))
+               | BadJson => (put_pc p (MustMove (r_id r')) s2, RCorrupt)
+               | BadType => (put_pc p Idle s2, RRaise)
+               end).
+  { unfold do_claim. rewrite G, F1. reflexivity. }
+  unfold do_poll. rewrite E1, E2.
+  destruct (r_kind r') eqn:Hk; cbn [fst snd].
+  - (* Good *) simpl. repeat split; auto.
+  - (* BadJson: claimed, then moved to the DLQ *)
+    unfold do_move_corrupt. rewrite get_put_same. cbn [fst]. rewrite move_spec.
+    change (rows (put_pc p (MustMove (r_id r')) s2)) with (claim_rows (r_id r') (r_ver r') lockv (rows s)).
+    destruct (take_row (r_id r') (claim_rows (r_id r') (r_ver r') lockv (rows s))) as [[rr rest]|] eqn:T.
+    + simpl. split; auto. split; auto. unfold take_row in T.
+      assert (N2 : NoDup (map r_id (claim_rows (r_id r') (r_ver r') lockv (rows s)))).
+      { assert (E : map r_id (claim_rows (r_id r') (r_ver r') lockv (rows s)) = map r_id (rows s)).
+        { unfold claim_rows. rewrite map_map. apply map_ext. intros x. destruct (claim_hit (r_id r') (r_ver r') x); auto. }
+        rewrite E. exact N. }
+      split.
+      * intros x Hx Hne. apply (take_rest_iff _ _ _ _ _ x T N2). split; auto.
+      * pose proof (take_filter_len r_id (eligible c s) _ _ _ _ T). lia.
+    + simpl. repeat split; auto.
+  - (* BadType *) simpl. repeat split; auto.
+Qed.
+
+Theorem drain_claims_due : forall n s r, inv s ->
+  (length (filter (eligible c s) (rows s)) <= n)%nat ->
+  In r (rows s) -> eligible c s r = true ->
+  exists k, (1 <= k <= n)%nat /\ In (r_id r, r_ver r) (claims (run c (repeat (PollOne p) k) s)).
+Proof.
+  induction n as [|n IH]; intros s r Hinv Hlen Hin He.
+  - exfalso. assert (In r (filter (eligible c s) (rows s))) by (apply filter_In; auto).
+    destruct (filter (eligible c s) (rows s)); [contradiction|simpl in Hlen; lia].
+  - assert (N : NoDup (map r_id (rows s))) by apply Hinv.
+    destruct (select_finds_due c s r N Hin He) as (r' & P & Hin' & He' & Hord).
+    destruct (poll_effect s r' Hinv P) as (Hnow & Hcl & Hoth & Hlt).
+    destruct (Z.eq_dec (r_id r') (r_id r)) as [E|E].
+    + assert (r' = r) by (eapply nodup_keys_inj; eauto). subst r'.
+      exists 1%nat. split; [lia|]. simpl. cbn [step fst]. rewrite Hcl. now left.
+    + set (s' := fst (do_poll c p s)) in *.
+      assert (Hinv' : inv s') by (apply inv_poll; auto).
+      assert (Hel : forall x, eligible c s' x = eligible c s x) by (intros; apply eligible_now; auto).
+      assert (Hlen' : (length (filter (eligible c s') (rows s')) <= n)%nat).
+      { rewrite (filter_ext _ _ Hel). lia. }
+      destruct (IH s' r Hinv' Hlen' (Hoth r Hin (not_eq_sym E))) as (k & Hk & Hc); [rewrite Hel; auto|].
+      exists (S k). split; [lia|]. simpl. cbn [step fst]. exact Hc.
+Qed.
+End Drain.
+
+Lemma filter_len_le {A} (f : A -> bool) : forall l, (length (filter f l) <= length l)%nat.
+Proof. induction l as [|a l IH]; simpl; auto. destruct (f a); simpl; lia. Qed.
+
+Theorem at_least_once_drain : forall c p s r,
+  eff_skew c <= lock_ms c -> inv s -> In r (rows s) -> eligible c s r = true ->
+  exists k, (1 <= k <= length (rows s))%nat /\ In (r_id r, r_ver r) (claims (run c (repeat (PollOne p) k) s)).
+Proof.
+  intros c p s r Hs Hinv Hin He.
+  destruct (drain_claims_due c p Hs (length (filter (eligible c s) (rows s))) s r Hinv (le_n _) Hin He) as (k & Hk & Hc).
+  exists k. split; auto. pose proof (filter_len_le (eligible c s) (rows s)). lia.
+Qed.
